@@ -85,6 +85,7 @@ FAMILIES = {
     "dispatch": {"module": "Dispatch", "judge": "DispatchTrace"},
     "pipeline": {"module": "MC_PipelineHist", "judge": "PipelineTrace", "by_history": True},
     "genfile": {"module": "GenFile", "judge": "GenFileTrace"},
+    "typelit": {"module": "TypeLit", "judge": "TypeLitTrace"},
     "tracker": {"module": "MC_ImportTracker", "judge": "ImportTrackerTrace"},
     "comments": {"module": "Comments", "judge": "CommentsTrace"},
     "inflect": {"module": "Inflector", "judge": "InflectorTrace", "race": True},
@@ -453,6 +454,31 @@ def check_C09(ctx):
     ], fails)
 
 
+def check_C11(ctx):
+    t = ctx.tier
+    res = run_family(ctx, "typelit", "TypeLit", ["TypeLit_gen_%s.cfg" % t], "TypeLitTrace", shard=6000)
+    fails = vlib.collect_failures(res["trace"], res["bad"], "typelit", only_prefix="C11")
+    tr = res["trace"]
+    cov = {
+        "traces_validated_against_impl": len(tr),
+        "evaluations": len(tr),
+        "distinct_nontrivial": _distinct(tr, lambda r: r["case"]["tree"]["k"] != "leaf", key=lambda r: json.dumps(r["case"], sort_keys=True)),
+        "rule": "TypeLit.tla enumerates every well-formed closed type expression up to the tier depth over 12 leaves (int, string, error, any, named struct / integer / string types of "
+                "three packages - the target's own, another, and a second package with the same name - and instantiations of a generic struct with a basic, a same-package and a "
+                "foreign argument) and 8 constructors (pointer, slice, array, bidirectional channel, map with string key, map with named key, struct with a tagged field, struct with an "
+                "embedded field) x 3 rendering scenarios (into the own package, into another package, into a package that already imported the same-named package) x 2 views (go/types, "
+                "reflect). Each is rendered with snippet.ID and `var X <text>` is type-checked by go/types inside the target package with exactly the registered imports; the result's type "
+                "string is compared with the original's. Non-trivial = composite expressions.",
+        "exhaustive": True,
+        "samples": [{"case": r["case"], "rendered": r["obs"]["rendered"], "got": r["obs"]["got"], "imported": r["obs"]["imported"]} for r in tr[:: max(1, len(tr) // 4)][:4]],
+    }
+    return vlib.finish(ctx, "model_checking", cov, [
+        "go/types is the oracle for 'type-checks to an identical type' (fully qualified type strings are compared, which cover names, tags, embedding and lengths)",
+        "the reflect view covers the instantiations that exist in the compiled harness",
+        "directional channels, function and non-empty interface types are outside the statement's grammar and not generated",
+    ], fails)
+
+
 def check_C12(ctx):
     t = ctx.tier
     gens = ["Comments_gen%s_%s.cfg" % (k, t) for k in ("Tag", "List", "Lay")]
@@ -536,6 +562,7 @@ CHECKS = {
     "C07": check_C07,
     "C08": check_C08,
     "C09": check_C09,
+    "C11": check_C11,
     "C12": check_C12,
     "C13": check_C13,
     "C14": check_C14,
